@@ -211,11 +211,11 @@ func runC01(w *World, c *Check) {
 	}
 	checkCalls(w, c, "C01.authusage", "messages.(*APReq).DecryptAuthenticator", []CallSpec{
 		{Name: "decrypt-usage", Desc: "authenticator is decrypted with the session key parameter and authenticatorKeyUsage(ticket sname)",
-			Callee: P("crypto.DecryptEncPart"), Want: P("crypto.DecryptEncPart(recv.EncryptedAuthenticator, @0, messages.authenticatorKeyUsage(recv.Ticket.SName))")},
+			Callee: P("crypto.DecryptEncPart"), Want: P("crypto.DecryptEncPart(recv.EncryptedAuthenticator, @0, ", re(`(?:uint32\()?`), "messages.authenticatorKeyUsage(recv.Ticket.SName)", re(`\)?`), ")")},
 	})
 	checkCalls(w, c, "C01.authusage", "messages.encryptAuthenticator", []CallSpec{
 		{Name: "encrypt-usage", Desc: "authenticator is encrypted with the session key parameter and authenticatorKeyUsage(ticket sname)",
-			Callee: P("crypto.GetEncryptedData"), Want: P("crypto.GetEncryptedData(", reAny, ", @1, messages.authenticatorKeyUsage(@2.SName), @2.EncPart.KVNO)")},
+			Callee: P("crypto.GetEncryptedData"), Want: P("crypto.GetEncryptedData(", reAny, ", @1, ", re(`(?:uint32\()?`), "messages.authenticatorKeyUsage(@2.SName)", re(`\)?`), ", @2.EncPart.KVNO)")},
 	})
 
 	// shared with C14: the keytab filter
